@@ -3768,6 +3768,8 @@ struct Gen<'r> {
     gm: Vec<Str>,
     has_alt: bool,
     inl_hist: Vec<(Glyph, Glyph)>, // inline single substitutions of the contextual lookup being generated
+    hot: Option<u32>,       // a class that rules refer to by name and that is redefined along the way
+    hot_marks: Option<u32>, // the same for a class of marks used by lookupflag statements
     attach_parts: [Vec<Glyph>; 2], // the MarkAttachmentType classes of this program (disjoint: GDEF gives a mark one class)
 }
 
@@ -3888,6 +3890,8 @@ impl<'r> Gen<'r> {
             gm: GLYPHS.iter().map(|s| to_str(s)).collect(),
             has_alt: false,
             inl_hist: vec![],
+            hot: None,
+            hot_marks: None,
             attach_parts: if pick_part { [vec![G_ACUTE], vec![G_GRAVE, G_DOTB]] } else { [vec![G_ACUTE, G_GRAVE], vec![G_DOTB]] },
         }
     }
@@ -3948,6 +3952,18 @@ impl<'r> Gen<'r> {
     }
     /// glyph class items resolving (under the specification's reading) to between kmin and kmax + glyphs
     fn class_items(&mut self, kmin: usize, kmax: usize) -> Vec<CItem> {
+        if let Some(h) = self.hot {
+            if self.rng.chance(1, 2) && !self.resolve(&[IRef(h)]).is_empty() {
+                let mut v = vec![IRef(h)];
+                if self.rng.chance(1, 5) {
+                    let g = self.fg();
+                    if !self.resolve(&v).contains(&g) {
+                        v.push(IGlyph(g));
+                    }
+                }
+                return v;
+            }
+        }
         let k = self.rng.range(kmin as i64, kmax as i64) as usize;
         let r = self.rng.below(100);
         if self.use_ranges && r < if self.theme == Theme::Range { 55 } else { 30 } {
@@ -4030,6 +4046,12 @@ impl<'r> Gen<'r> {
         } else if r < 60 {
             f.ibase = true;
         } else if r < 78 {
+            if let Some(h) = self.hot_marks {
+                if self.rng.chance(2, 3) {
+                    f.filter = Some(vec![IRef(h)]);
+                    return f;
+                }
+            }
             let m = if self.marks.is_empty() { G_ACUTE } else { *self.rng.pick(&self.marks) };
             let mut items = vec![IGlyph(m)];
             if self.rng.chance(1, 4) {
@@ -4122,6 +4144,43 @@ impl<'r> Gen<'r> {
             self.class_names.push(name);
         }
         (name, items)
+    }
+
+    /// redefine the hot class (or the hot class of marks) with different contents: from scratch, or in
+    /// the incremental form `@c = [@c more];`.  Rules generated from here on see the new definition.
+    fn redefine_hot(&mut self) -> Option<(u32, Vec<CItem>)> {
+        let marks = self.hot_marks.is_some() && (self.hot.is_none() || self.rng.chance(1, 3));
+        let name = if marks { self.hot_marks? } else { self.hot? };
+        let cur = self.resolve(&[IRef(name)]);
+        let pool: Vec<Glyph> = if marks {
+            vec![G_ACUTE, G_GRAVE, G_DOTB]
+        } else {
+            let mut l = self.focus.clone();
+            l.extend(self.outs.iter().copied().filter(|g| !self.focus.contains(g)));
+            l
+        };
+        let fresh: Vec<Glyph> = pool.iter().copied().filter(|g| !cur.contains(g)).collect();
+        let items: Vec<CItem> = if !fresh.is_empty() && self.rng.chance(1, 2) {
+            // incremental
+            let g = *self.rng.pick(&fresh);
+            if self.rng.chance(2, 3) { vec![IRef(name), IGlyph(g)] } else { vec![IGlyph(g), IRef(name)] }
+        } else {
+            let mut l = pool.clone();
+            self.rng.shuffle(&mut l);
+            let k = if marks { self.rng.range(1, 2) } else { self.rng.range(2, 3) } as usize;
+            l.truncate(k.min(l.len()).max(1));
+            let mut a = l.clone();
+            a.sort();
+            let mut b = cur.clone();
+            b.sort();
+            if a == b {
+                return None;
+            }
+            l.into_iter().map(IGlyph).collect()
+        };
+        let c = self.resolve(&items);
+        self.env.insert(0, (name, c));
+        Some((name, items))
     }
 
     // ---- rule runs --------------------------------------------------------------------------------
@@ -4602,6 +4661,12 @@ impl<'r> Gen<'r> {
     /// one run of rules of a kind (the statements of one lookup, or more when flags split it);
     /// returns the statements, the kind the lookup ends up with, and its domain
     fn gen_run(&mut self, kind: Kind, in_named: bool) -> (Vec<LStmt>, Vec<Glyph>) {
+        // a redefinition of the hot class right before the run: its rules use the new contents
+        let pre: Option<LStmt> = if (self.hot.is_some() || self.hot_marks.is_some()) && self.rng.chance(1, 3) {
+            self.redefine_hot().map(|(n, items)| LClassDef(n, items))
+        } else {
+            None
+        };
         let mut rules: Vec<Rule> = vec![];
         match kind {
             KSingle => {
@@ -4717,6 +4782,9 @@ impl<'r> Gen<'r> {
         }
         let dom = self.dom_of(&rules);
         let mut stmts: Vec<LStmt> = vec![];
+        if let Some(p) = pre {
+            stmts.push(p);
+        }
         let split = if !in_named && self.use_flags && rules.len() >= 2 && self.rng.chance(1, 3) { Some(self.rng.range(1, rules.len() as i64 - 1) as usize) } else { None };
         // a run split by a lookupflag statement: half of the time the two states differ only in a class
         let pair = if split.is_some() && self.rng.chance(1, 2) { Some(self.flag_pair()) } else { None };
@@ -4901,6 +4969,21 @@ impl<'r> Gen<'r> {
             let (n, items) = self.def_class();
             p.push(TClassDef(n, items));
         }
+        // a class that rules use by name before and after it is redefined (1 program in 3)
+        if self.rng.chance(1, 3) {
+            let (n, items) = self.def_class();
+            p.push(TClassDef(n, items));
+            self.hot = Some(n);
+            if self.use_flags && self.rng.chance(1, 2) {
+                let n = self.next_class;
+                self.next_class += 1;
+                let m = *self.rng.pick(&[G_ACUTE, G_GRAVE, G_DOTB]);
+                self.env.insert(0, (n, vec![m]));
+                self.class_names.push(n);
+                p.push(TClassDef(n, vec![IGlyph(m)]));
+                self.hot_marks = Some(n);
+            }
+        }
         // top-level named lookups
         let nnamed = match self.theme {
             Theme::Ctx => self.rng.range(1, 4),
@@ -4929,6 +5012,11 @@ impl<'r> Gen<'r> {
             tags.push(t);
             let body = self.gen_feature_body();
             p.push(TFeature(t, body));
+            if self.rng.chance(1, 2) {
+                if let Some((n, items)) = self.redefine_hot() {
+                    p.push(TClassDef(n, items));
+                }
+            }
         }
         if !gdef_first {
             if let Some(g) = gdef {
@@ -5110,6 +5198,32 @@ fn corpus() -> Vec<(Prog, String)> {
                 ),
             ],
             "corpus:flags-ligature-kerning".into(),
+        ),
+        // a class redefined between its uses: a reference means the latest definition before it
+        (
+            vec![
+                TClassDef(1, vec![IGlyph(G_A), IGlyph(G_B)]),
+                TFeature(tag("ss01"), vec![r(RSingle(OClass(vec![IRef(1)]), g(G_C)))]),
+                TClassDef(1, vec![IRange(to_str("d"), to_str("f"))]),
+                TFeature(tag("ss02"), vec![r(RSingle(OClass(vec![IRef(1)]), g(G_X)))]),
+            ],
+            "corpus:class-redefined-between-features".into(),
+        ),
+        (
+            vec![
+                TClassDef(1, vec![IGlyph(G_A), IGlyph(G_B)]),
+                TFeature(
+                    t,
+                    vec![
+                        r(RLiga(vec![OClass(vec![IRef(1)]), g(G_C)], G_X)),
+                        FS(LClassDef(1, vec![IRef(1), IGlyph(G_D)])),
+                        r(RPosPair(false, OClass(vec![IRef(1)]), g(G_C), val(-25))),
+                        FS(LClassDef(1, vec![IGlyph(G_E), IRef(1)])),
+                        r(RChain(vec![OClass(vec![IRef(1)])], vec![(g(G_C), vec![])], vec![], InlSub(vec![g(G_Y)]))),
+                    ],
+                ),
+            ],
+            "corpus:class-extended-incrementally".into(),
         ),
         // two lookupflag states that differ only in the class: the rules after each are separate lookups
         {
